@@ -28,8 +28,8 @@
 //     POST /admin/loggers; every case states its logger set and applies it
 //     through that endpoint first.
 //   - A request that supplies a secret (create user, set DSN password, PATCH
-//     /admin/config) stores it; the response to that very request may not
-//     carry it either. A bearer token that a logon / token endpoint has just
+//     /admin/config) and is answered 2xx stores it; the response to that very
+//     request may not carry it either. A refused request stores nothing. A bearer token that a logon / token endpoint has just
 //     issued to the caller is not a stored secret and is not a canary.
 //   - The single-setting form of the configuration endpoint is POST
 //     /admin/config with a JSON array of names (what `ego config` and the
@@ -193,10 +193,16 @@ func (wd *world) exec(rq Req) (status int, nonEmpty bool, leaks []leak) {
 			}
 		}()
 	}
-	for _, s := range rq.Supplies {
-		wd.reg.add(s.Class, s.Value)
-	}
 	resp := wd.f.Do(srvfix.Request{Method: rq.Method, Path: rq.Path, Header: wd.header(rq), Body: rq.Body})
+	if resp.Status/100 == 2 {
+		// The server accepted the request, so what it supplied is stored now
+		// (registered before the scan: the response to the storing request may
+		// not carry the secret either). A refused request stores nothing, and a
+		// value that was never stored is not a stored secret.
+		for _, s := range rq.Supplies {
+			wd.reg.add(s.Class, s.Value)
+		}
+	}
 	if rq.ReadUser != "" {
 		_ = wd.readUser(rq.ReadUser)
 	}
@@ -348,8 +354,8 @@ func TestC44(t *testing.T) {
 		Gen:       genCase,
 		Oracle:    oracle,
 		Fixed:     fixedCases,
-		Quick:     150,
-		Thorough:  2500,
+		Quick:     100,
+		Thorough:  1000,
 		MaxRounds: 6,
 		Extra: func() map[string]any {
 			classes := map[string]int{}
